@@ -2,7 +2,9 @@
 package eng
 
 import (
+	"bufio"
 	"fmt"
+	"io"
 	"os"
 	"path/filepath"
 	"runtime/debug"
@@ -207,3 +209,6 @@ func shrinkBytes(b []byte) [][]byte {
 	}
 	return out
 }
+
+// newBufWriter wraps w the way the goawk CLI wraps stdout.
+func newBufWriter(w io.Writer, size int) *bufio.Writer { return bufio.NewWriterSize(w, size) }
